@@ -196,6 +196,13 @@ def receiverWrites : List String := [
   "yamlFormatter.enumUnmarshal: `return nil`"
 ]
 
+def stringFormats : List String := [
+  "case \"date\": NamedType \"types\" \"github.com/atombender/go-jsonschema/pkg/types\" \"SerializableDate\"",
+  "case \"date-time\": NamedType \"time\" \"time\" \"Time\"",
+  "case \"ipv4\", \"ipv6\": NamedType \"net/netip\" \"net/netip\" \"Addr\"",
+  "case \"time\": NamedType \"types\" \"github.com/atombender/go-jsonschema/pkg/types\" \"SerializableTime\""
+]
+
 def templateQualifiers : List String := [
   "pkg/generator anyOfValidator.generate: errors",
   "pkg/generator anyOfValidator.generate: fmt",
